@@ -53,6 +53,7 @@ type bufSpec struct {
 	items []item
 	// kind A: NewValidatedBufferFromReaderAt over storage holding pre, data, suf back to back
 	suf, pre []byte
+	failAt   int // kind A: the medium fails at this position of the object (ReadAt returns the bytes before it and error k); < 0 = never
 	// kind W: WithErrorHandler(inner, a handler of its own answering with hin) - a stacked backend
 	inner *bufSpec
 	hin   []bufSpec
@@ -102,6 +103,9 @@ func (b bufSpec) String() string {
 	case 'E', 'F':
 		return fmt.Sprintf("%c:%d", b.kind, b.k)
 	case 'A':
+		if b.failAt >= 0 {
+			return fmt.Sprintf("A:%s/%s/%s/%d!%d", hx.Hex(b.data), hx.Hex(b.suf), hx.Hex(b.pre), b.failAt, b.k)
+		}
 		return fmt.Sprintf("A:%s/%s/%s", hx.Hex(b.data), hx.Hex(b.suf), hx.Hex(b.pre))
 	case 'W':
 		ws := []string{b.inner.String()}
@@ -188,6 +192,20 @@ func parseBuf(w string) (bufSpec, bool) {
 		return b, err == nil
 	case 'A':
 		q := strings.Split(p[1], "/")
+		b.failAt = -1
+		if len(q) == 4 {
+			fk := strings.Split(q[3], "!")
+			if len(fk) != 2 {
+				return b, false
+			}
+			f, err1 := strconv.Atoi(fk[0])
+			k, err2 := strconv.Atoi(fk[1])
+			if err1 != nil || err2 != nil || f < 0 {
+				return b, false
+			}
+			b.failAt, b.k = f, k
+			q = q[:3]
+		}
 		if len(q) != 3 {
 			return b, false
 		}
@@ -343,7 +361,30 @@ func (s *readSrc) Close() error { s.e.closes++; return nil }
 // and continues with whatever is stored after it.
 type readAtSrc struct {
 	*io.SectionReader
-	e *env
+	e      *env
+	failAt int64 // < 0 = never
+	k      int
+}
+
+// ReadAt: a read that touches the failing position returns the bytes before it and the error.
+func (s *readAtSrc) ReadAt(p []byte, off int64) (int, error) {
+	if s.failAt >= 0 && off >= 0 && off < s.Size() && len(p) > 0 {
+		end := off + int64(len(p))
+		if end > s.Size() {
+			end = s.Size()
+		}
+		if end > s.failAt {
+			n := 0
+			if s.failAt > off {
+				n, _ = s.SectionReader.ReadAt(p[:s.failAt-off], off)
+			}
+			s.e.mu.Lock()
+			s.e.emitted = append(s.e.emitted, s.k)
+			s.e.mu.Unlock()
+			return n, s.e.errOf(s.k)
+		}
+	}
+	return s.SectionReader.ReadAt(p, off)
 }
 
 func (s *readAtSrc) Close() error { s.e.mu.Lock(); s.e.closes++; s.e.mu.Unlock(); return nil }
@@ -374,7 +415,7 @@ func (e *env) build(b bufSpec) buffer.Buffer {
 	case 'A':
 		backing := append(append(append([]byte{}, b.pre...), b.data...), b.suf...)
 		return buffer.NewValidatedBufferFromReaderAt(
-			&readAtSrc{e: e, SectionReader: io.NewSectionReader(bytes.NewReader(backing), int64(len(b.pre)), int64(len(b.data)+len(b.suf)))},
+			&readAtSrc{e: e, failAt: int64(b.failAt), k: b.k, SectionReader: io.NewSectionReader(bytes.NewReader(backing), int64(len(b.pre)), int64(len(b.data)+len(b.suf)))},
 			int64(len(b.data)))
 	case 'K', 'V':
 		e.opens++
@@ -576,10 +617,7 @@ func runReal(c caseSpec) (o obs) {
 			nn, err := b.ReadAt(p, int64(o.off))
 			if err != nil && err != io.EOF {
 				o.finalErr = err
-				result = "err:" + e.tagOf(err)
-				if nn != 0 {
-					result += fmt.Sprintf("!n=%d", nn)
-				}
+				result = "err:" + e.tagOf(err) // (n may be > 0 next to an error: io.ReaderAt allows that)
 			} else {
 				o.delivered, o.complete = p[:nn], true
 				result = status3(err) + ":" + hx.Hex(p[:nn])
@@ -800,6 +838,8 @@ func checkHandler(e *env, h *handler, who string) (string, string) {
 		case 'C', 'R', 'K', 'V':
 			fk, has := firstFail(cur)
 			bad = isTag && (!has || fk != k)
+		case 'A':
+			bad = isTag && !(cur.failAt >= 0 && k == cur.k)
 		case 'W':
 			// a stacked buffer yields its own handler's decision, never a raw error from below
 			bad = isTag && !failTags(cur)[k]
@@ -826,6 +866,17 @@ func oracle(c caseSpec, o obs) (string, string) {
 	h, e := o.h, o.e
 	if o.panicked != "" {
 		return "operation on a buffer with an error handler panicked", o.panicked
+	}
+	if a, ok := c.handlerlessA(); ok && o.finalErr != nil {
+		if k, isTag := e.rev[o.finalErr]; isTag && k == a.k {
+			offered := false
+			for _, err := range h.log {
+				offered = offered || err == o.finalErr
+			}
+			if !offered {
+				return whatF15, fmt.Sprintf("%s failed with t%d; OnError calls: %d, Done calls: %d, consumer got t%d", a, a.k, len(h.log), h.done, k)
+			}
+		}
 	}
 	if w, d := checkHandler(e, h, "the handler"); w != "" {
 		return w, d
@@ -933,8 +984,17 @@ func oracle(c caseSpec, o obs) (string, string) {
 	// exactly once, in order; validated across the parts
 	looseReadAt := false // ReadAt of a validated ReaderAt buffer is not bounded by the object's size
 	if opKind == "readat" {
-		for _, b := range c.allBufs() {
-			looseReadAt = looseReadAt || (b.kind == 'A' && len(b.suf) > 0)
+		if c.nested() {
+			for _, b := range c.allBufs() {
+				looseReadAt = looseReadAt || (b.kind == 'A' && len(b.suf) > 0)
+			}
+		} else {
+			// the buffer that answered: the base, or the handler's last replacement
+			last := c.base
+			if n := len(h.log); n > 0 && n <= len(c.resps) && c.resps[n-1].kind != 'F' {
+				last = c.resps[n-1]
+			}
+			looseReadAt = last.kind == 'A' && len(last.suf) > 0
 		}
 	}
 	if c.trusted() && consuming && !looseReadAt {
@@ -1071,7 +1131,7 @@ func exhaustive(L int, full bool, emit func(c caseSpec)) {
 			}
 		}
 	}
-	bases = append(bases, bufSpec{kind: 'A', data: d, suf: bytes.Repeat([]byte{0xee}, L+2), pre: []byte{0xdd}}, bufSpec{kind: 'A', data: d})
+	bases = append(bases, bufSpec{kind: 'A', data: d, suf: bytes.Repeat([]byte{0xee}, L+2), pre: []byte{0xdd}, failAt: -1}, bufSpec{kind: 'A', data: d, failAt: -1})
 	bases = append(bases, bufSpec{kind: 'E', k: 1}, bufSpec{kind: 'B', data: d}, bufSpec{kind: 'S', data: d},
 		bufSpec{kind: 'S', data: d[:L/2]}, bufSpec{kind: 'C', items: []item{{data: d}, {data: []byte{}}, {fail: true, k: 1}}},
 		bufSpec{kind: 'C', items: []item{{data: []byte{}}, {data: d}, {data: []byte{9}}}})
@@ -1115,8 +1175,18 @@ func exhaustive(L int, full bool, emit func(c caseSpec)) {
 	}
 	// validated ReaderAt buffers whose storage continues before and after the object
 	other := bytes.Repeat([]byte{0xee}, L+2)
-	firsts = append(firsts, []bufSpec{{kind: 'A', data: d, suf: other, pre: []byte{0xdd}}}, []bufSpec{{kind: 'A', data: d, suf: other[:1]}},
-		[]bufSpec{{kind: 'A', data: d}})
+	firsts = append(firsts, []bufSpec{{kind: 'A', data: d, suf: other, pre: []byte{0xdd}, failAt: -1}}, []bufSpec{{kind: 'A', data: d, suf: other[:1], failAt: -1}},
+		[]bufSpec{{kind: 'A', data: d, failAt: -1}})
+	// ... on a medium that fails part way through the object: ReadAt returns n > 0 and an error
+	for fp := 0; fp < L; fp++ {
+		for si, sec := range [][]bufSpec{{{kind: 'B', data: d}}, {{kind: 'C', items: scriptOf(uniform(d, 2), -1, 0)}}, {{kind: 'F', k: 21}},
+			{{kind: 'A', data: d, suf: other[:2], failAt: -1}}, {}} {
+			if !full && (fp+si)%2 == 1 {
+				continue
+			}
+			firsts = append(firsts, append([]bufSpec{{kind: 'A', data: d, suf: other[:fp%3], failAt: fp, k: 2}}, sec...))
+		}
+	}
 	firsts = append(firsts, []bufSpec{{kind: 'B', data: d}}, []bufSpec{{kind: 'S', data: d}}, []bufSpec{{kind: 'F', k: 11}}, []bufSpec{})
 	for _, s := range seconds {
 		firsts = append(firsts, append([]bufSpec{{kind: 'E', k: 12}}, s...))
@@ -1230,6 +1300,7 @@ func randomCase(r *hx.Rand) caseSpec {
 	}
 	var randBuf func(mayFail bool) bufSpec
 	depth := 0
+	allowFailA := r.Chance(1, 40) // rarely as the base buffer (known finding F15)
 	randBuf = func(mayFail bool) bufSpec {
 		if depth < 2 && r.Chance(1, 6) {
 			depth++
@@ -1276,7 +1347,11 @@ func randomCase(r *hx.Rand) caseSpec {
 		case x < 4:
 			return bufSpec{kind: 'S', data: data}
 		case x < 6:
-			return bufSpec{kind: 'A', data: d, suf: r.Bytes(r.PickInt(0, 1, L, L+3)), pre: r.Bytes(r.PickInt(0, 0, 2))}
+			a := bufSpec{kind: 'A', data: d, suf: r.Bytes(r.PickInt(0, 1, L, L+3)), pre: r.Bytes(r.PickInt(0, 0, 2)), failAt: -1}
+			if allowFailA && depth == 0 && mayFail && L > 0 && r.Chance(1, 2) {
+				a.failAt, a.k = r.Intn(L), nextTag()
+			}
+			return a
 		}
 		kind := byte('C')
 		switch y := r.Intn(16); {
@@ -1299,6 +1374,7 @@ func randomCase(r *hx.Rand) caseSpec {
 		return bufSpec{kind: kind, items: items}
 	}
 	c.base = randBuf(true)
+	allowFailA = true // (as a base buffer a validated ReaderAt buffer finishes the handler at once)
 	nresp := r.PickInt(0, 1, 2, 2, 3, 4)
 	for i := 0; i < nresp; i++ {
 		if r.Chance(1, 8) {
@@ -1365,6 +1441,11 @@ func variants(b bufSpec) []bufSpec {
 			}
 		}
 	case 'A':
+		if b.failAt >= 0 {
+			nb := b
+			nb.failAt = -1
+			res = append(res, nb)
+		}
 		if len(b.suf) > 0 {
 			nb := b
 			nb.suf = nil
@@ -1440,7 +1521,47 @@ func shrinkCase(c caseSpec, fails func(caseSpec) bool) caseSpec {
 
 // oracleOnly: cases the model does not cover (negative offsets, stacked error handlers); they are
 // run on the real code and held against the oracle only.
-func oracleOnly(c caseSpec) bool { return strings.HasPrefix(c.op, "x") || c.nested() || c.hasKind('V') }
+func oracleOnly(c caseSpec) bool {
+	return strings.HasPrefix(c.op, "x") || c.nested() || c.hasKind('V') || c.failingA()
+}
+
+// handlerlessFailingA: the buffer WithErrorHandler ends up with (the base, or the replacement the
+// handler gave for a base in a known error state) is a validated ReaderAt buffer on a failing
+// medium. validatedReaderBuffer.applyErrorHandler finishes the handler at once ("TODO: Add support
+// for actually respecting the error handler ... cannot realistically fail"), so its failure reaches
+// the consumer unhandled: known finding F15, reported with its own sentence only.
+func (c caseSpec) handlerlessFailingA() bool { _, ok := c.handlerlessA(); return ok }
+
+func (c caseSpec) handlerlessA() (bufSpec, bool) {
+	errLike := func(b bufSpec) bool {
+		return b.kind == 'E' || (b.kind == 'S' && (len(b.data) != c.size || !bytes.Equal(b.data, c.d)))
+	}
+	cur, i := c.base, 0
+	for cur.kind == 'W' {
+		cur = *cur.inner
+	}
+	for errLike(cur) && i < len(c.resps) && c.resps[i].kind != 'F' {
+		cur = c.resps[i]
+		i++
+		for cur.kind == 'W' {
+			cur = *cur.inner
+		}
+	}
+	return cur, cur.kind == 'A' && cur.failAt >= 0
+}
+
+// whatF15 is the sentence of known finding F15 (known_findings.json matches on it).
+const whatF15 = "an I/O error of a validated ReaderAt buffer reached the consumer without being offered to the error handler"
+
+// failingA: some validated ReaderAt buffer of the case sits on a failing medium (not modelled).
+func (c caseSpec) failingA() bool {
+	for _, b := range c.allBufs() {
+		if b.kind == 'A' && b.failAt >= 0 {
+			return true
+		}
+	}
+	return false
+}
 
 func (c caseSpec) hasKind(k byte) bool {
 	for _, b := range c.allBufs() {
@@ -1506,6 +1627,7 @@ func TestC16(t *testing.T) {
 		}
 	}
 
+	f15Reported := 0
 	var batch []pending
 	flush := func() {
 		if len(batch) == 0 {
@@ -1532,6 +1654,9 @@ func TestC16(t *testing.T) {
 		batch = batch[:0]
 	}
 	handle := func(name string, c caseSpec) {
+		if c.handlerlessFailingA() {
+			run.Count("shape:handlerless-failing-readerat")
+		}
 		if os.Getenv("C16_DEBUG") != "" && c.nested() {
 			fmt.Fprintln(os.Stderr, "CASE", c.line())
 		}
@@ -1561,6 +1686,13 @@ func TestC16(t *testing.T) {
 				run.Count("stacked-handlers")
 			}
 			if what, _ := oracle(c, o); what != "" && run.Findings() < 20 {
+				if what == whatF15 {
+					run.Count("known:F15")
+					if f15Reported >= 2 {
+						return
+					}
+					f15Reported++
+				}
 				small := shrinkCase(c, func(cc caseSpec) bool {
 					w, _ := oracle(cc, runReal(cc))
 					return w == what
@@ -1604,6 +1736,17 @@ func TestC16(t *testing.T) {
 		for _, line := range script {
 			if c, ok := parseLine(line); ok {
 				handle("corpus/"+name, c)
+			}
+		}
+	}
+	flush()
+
+	// the shape of known finding F15: a validated ReaderAt buffer on a failing medium as the buffer
+	// WithErrorHandler ends up with
+	for i, bufs := range []string{"A:0102030405/eeee/dd/2!1", "E:1 A:0102030405/eeee/dd/2!2", "A:0102030405/-/-/0!1 B:0102030405"} {
+		for j, op := range []string{"slice:9", "reader:2.2.2.2", "chunks:0:2:99", "chunks:1:9:99", "readat:0:5", "readat:1:3", "writer:-"} {
+			if c, ok := parseLine("run 0102030405 5 " + op + " " + bufs); ok {
+				handle(fmt.Sprintf("f15/%d-%d", i, j), c)
 			}
 		}
 	}
